@@ -3,7 +3,7 @@
 // Contracts for the deductive verifier in /verif (comment-only; compiled only with -tags verif).
 package types
 
-//@ func Params.Validate
+//@ func Params.Validate()
 //@   property C16
 //@   returns err
 //@   ensures valid: err == nil ==> paramsOK(p)
@@ -29,7 +29,7 @@ package types
 
 // Pending reward and new debt of one farmer (C06): per rule, pending = floor(rps*locked) - debt (nothing while
 // nothing is locked) and the new debt is floor(rps*(locked+delta)); denominations not among the rules get nothing.
-//@ func FarmPool.CaclRewards
+//@ func FarmPool.CaclRewards(farmInfo, deltaAmt)
 //@   property C06
 //@   returns rewards, rewardDebt
 //@   uses ridxRange(pool.Rules, "")
@@ -50,7 +50,7 @@ package types
 //@ end
 
 // End height of a fresh pool: start + min over rules of floor(total / per-block) (C06).
-//@ func FarmPool.ExpiredHeight
+//@ func FarmPool.ExpiredHeight()
 //@   property C05, C06
 //@   returns end, err
 //@   requires pool.StartHeight >= 0
@@ -65,11 +65,11 @@ package types
 //@ end
 
 // list helpers used by AdjustPool (inlined there)
-//@ func RewardRules.Contains
+//@ func RewardRules.Contains(reward)
 //@   inline
 //@   invariant #1 idx: rangeindex >= 0 - 1 && rangeindex < len(rs)
 //@ end
-//@ func RewardRules.RewardsPerBlock
+//@ func RewardRules.RewardsPerBlock()
 //@   inline
 //@   invariant #1 idx: rangeindex >= 0 - 1 && rangeindex < len(rs)
 //@ end
@@ -84,32 +84,32 @@ package types
 
 // Field validators used by genesis validation: pure functions of their arguments (assumed: the outcome is a fixed
 // predicate of the argument, named here so that "what export produces is accepted" can be stated)
-//@ func ValidatepPoolId
+//@ func ValidatepPoolId(poolId)
 //@   property C12
 //@   trusted
 //@   returns seq, err
 //@   ensures ok:  (err == nil) == ufb("pool_id_ok", poolId)
 //@   ensures seq: err == nil ==> seq == uf("pool_id_seq", poolId) && seq > 0
 //@ end
-//@ func ValidateDescription
+//@ func ValidateDescription(description)
 //@   property C12
 //@   trusted
 //@   returns err
 //@   ensures ok:  (err == nil) == ufb("description_ok", description)
 //@ end
-//@ func ValidateAddress
+//@ func ValidateAddress(sender)
 //@   property C12
 //@   trusted
 //@   returns err
 //@   ensures ok:  (err == nil) == bechok(sender)
 //@ end
-//@ func ValidateLpTokenDenom
+//@ func ValidateLpTokenDenom(denom)
 //@   property C12
 //@   trusted
 //@   returns err
 //@   ensures ok:  (err == nil) == ufb("denom_valid", denom)
 //@ end
-//@ func ValidateCoins
+//@ func ValidateCoins(field, coins)
 //@   property C12
 //@   trusted
 //@   returns err
@@ -133,7 +133,7 @@ package types
 //@ define exportable(data) = (forall i:Int :: 0 <= i && i < len(data.Pools) ==> exportablePool(data.Pools[i], data.Sequence))
 //@                        && (forall i:Int :: 0 <= i && i < len(data.FarmInfos) ==> exportableInfo(data.FarmInfos[i]))
 //@                        && ufb("denom_valid", data.Params.PoolCreationFee.Denom) && data.Params.PoolCreationFee.Amount >= 0
-//@ func ValidateGenesis
+//@ func ValidateGenesis(data)
 //@   property C12
 //@   returns err
 //@   invariant #1 idx: rangeindex >= 0 - 1 && rangeindex < len(data.Pools) && (exportable(data) ==> maxSeq <= data.Sequence)
@@ -144,7 +144,7 @@ package types
 
 // Per-denomination view of the list helpers AdjustPool relies on (C05, C06): the total budgets as a Coins value, and
 // the rules with the per-block rewards replaced where a new positive value is given.
-//@ func RewardRules.TotalReward
+//@ func RewardRules.TotalReward()
 //@   property C05, C06
 //@   returns total
 //@   uses ridxRange(rs, "")
@@ -159,7 +159,7 @@ package types
 //@ end
 
 //@ define withRpb(r, c) = ite(amt(c, r.Reward) > 0, with(r, "RewardPerBlock", amt(c, r.Reward)), r)
-//@ func RewardRules.UpdateWith
+//@ func RewardRules.UpdateWith(rewardPerBlock)
 //@   property C05, C06
 //@   returns out
 //@   let rs0 = rs
